@@ -163,7 +163,7 @@ def gen_case(rng, junk=False):
             sup.append(derived_suppress(rng, rng.choice(fbs)))
         else:
             sup.append(gen_suppress(rng))
-    return {'feedbacks': fbs, 'suppress': sup}
+    return {'feedbacks': fbs, 'suppress': sup, 'other_report': rng.random() < 0.2}
 
 
 CORPUS = [
